@@ -102,7 +102,7 @@ def run(rep):
     rep.cover('C16 all twelve derived Storable impls found in the MIR', len(impls) >= 12)
     from ..driver import parts
     parts(rep, [lambda: derive_consistency(rep, mir, L, impls), lambda: divergence_stats(rep, mir, L), lambda: transformation_update_fields(rep, mir, L),
-                lambda: point_stats(rep, mir, L), lambda: stats_options(rep, mir, L), lambda: counters(rep, mir, L)])
+                lambda: point_stats(rep, mir, L), lambda: stats_options(rep, mir, L), lambda: counters(rep, mir, L), lambda: update_event_tracking(rep, mir, L)])
 
 def mk_vm(mir, L, inst_by_struct=None):
     A = RealAlg(); vm = VM(mir, A, inst={}); install_misc(vm); install_storable_env(vm); MathEnv(vm, D, 'uf', L)
@@ -331,3 +331,82 @@ def counters(rep, mir, L):
         rep.functions.add(fn.name)
     if bad: rep.violated('C16.F draw/chain statistics', 'counters', 'draw / chain statistics not taken from the chain counters: %s' % (bad[0],), model={'problems': [str(b) for b in bad]})
     else: rep.holds('C16.F NutsStats / MclmcStats: chain and draw statistics are read from the chain id and draw counter (data-flow on the MIR)')
+
+
+def update_event_tracking(rep, mir, L):
+    """C16.G the "last reported transformation id" that makes update fields appear exactly on draws after which the transformation changed:
+    (1) next_stats_options of both mass matrices returns the current id, (2) TransformedHamiltonian::update_stats_options is that value,
+    (3) NutsChain / MclmcChain::expanded_draw extract the statistics with the options of the previous draw and then store the new options
+    on every successful draw (tuning or not)."""
+    from ..vm import OK, ERR, Enum
+    bad = []; n = 0
+    # (1)
+    for ty in ('DiagMassMatrix', 'LowRankMassMatrix'):
+        A, vm = mk_vm(mir, L); fn = mir.method(ty, 'Transformation', 'next_stats_options')
+        m = Machine(); idv = z3.Int('id')
+        if ty == 'DiagMassMatrix': obj = L.make(ty, {'mean': Opaque('m'), 'inv_stds': Opaque('i'), 'stds': Opaque('s'), 'logdet': A.fresh('ld'), 'store_mass_matrix': False, 'id': idv})
+        else: obj = L.make(ty, {'diag': Opaque('diag'), 'inner': Opaque('inner'), 'settings': Opaque('settings'), 'logdet': A.fresh('ld2'), 'id': idv})
+        outs = vm.run(fn, [Ref(m.alloc(obj)), Ref(m.alloc(Opaque('math'))), z3.Int('last_id')], m); n += len(outs); rep.absorb_vm(vm)
+        for (m2, k, v) in outs:
+            if k != 'ret': bad.append(('%s::next_stats_options panics' % ty,)); continue
+            sol = z3.Solver(); sol.add(*m2.pc); sol.add(v != idv)
+            if sol.check() != z3.unsat: bad.append(('%s::next_stats_options does not return the current transformation id' % ty, str(v)))
+    # (2)
+    A, vm = mk_vm(mir, L); fn = mir.method('TransformedHamiltonian', 'Hamiltonian', 'update_stats_options')
+    vm.add_model(r' as Transformation<M>>::next_stats_options$', lambda vm, m, c, a: (m.log('events', ('next', a[2])), ret(m, Struct(('next options',), 'Tok')))[1])
+    m = Machine(); m.ghost['events'] = []
+    ham = L.make('TransformedHamiltonian', {f: Opaque(f) for f in L.fields('TransformedHamiltonian')})
+    cur = Struct(('current options',), 'Tok')
+    outs = vm.run(fn, [Ref(m.alloc(ham)), Ref(m.alloc(Opaque('math'))), cur], m); n += len(outs); rep.absorb_vm(vm)
+    for (m2, k, v) in outs:
+        ev = m2.ghost['events']
+        if k != 'ret' or not (isinstance(v, Struct) and v.f == ('next options',)) or len(ev) != 1 or ev[0][1] is not cur:
+            bad.append(('TransformedHamiltonian::update_stats_options is not transformation.next_stats_options(current)', str(v)[:80]))
+    # (3)
+    for ty in ('NutsChain', 'MclmcChain'):
+        fn = mir.method(ty, 'Chain', 'expanded_draw')
+        for tuning in (z3.Bool('progress_tuning'),):
+            A, vm = mk_vm(mir, L)
+            prog = L.make('Progress', {'draw': z3.Int('d'), 'chain': z3.Int('c'), 'diverging': z3.Bool('div'), 'tuning': tuning, 'step_size': A.fresh('eps'), 'num_steps': z3.Int('ns')})
+            def draw(vm, m, c, a):
+                outs = []
+                for ok in (True, False):
+                    m2 = m.clone(); m2.log('events', ('draw', ok)); outs.append((m2, 'ret', OK(Struct((Opaque('position'), prog))) if ok else ERR(Opaque('anyhow(draw)'))))
+                return outs
+            vm.add_model(r' as chain::Chain<M>>::draw$', draw)
+            vm.add_model(r'^RefCell::<M>::borrow_mut$', lambda vm, m, c, a: ret(m, Struct((Ref(m.ghost['math']),), 'RefMut')))
+            vm.add_model(r'^<RefMut<.*> as DerefMut>::deref_mut$', lambda vm, m, c, a: ret(m, vm.read_at(m, a[0].cell, a[0].path).f[0]))
+            def extract(vm, m, c, a): m.log('events', ('extract_stats', L.get('StatOptions', a[2], 'hamiltonian'))); return ret(m, Opaque('stats'))
+            vm.add_model(r' as SamplerStats<M>>::extract_stats$', extract)
+            def upd(vm, m, c, a): m.log('events', ('update_stats_options', a[2])); return ret(m, Struct(('new hamiltonian options',), 'Tok'))
+            vm.add_model(r' as Hamiltonian<M>>::update_stats_options$', upd)
+            vm.add_model(r'^State::<.*>::point$|::position$', lambda vm, m, c, a: ret(m, Opaque('ref')))
+            def expand(vm, m, c, a):
+                outs = []
+                for ok in (True, False):
+                    m2 = m.clone(); m2.log('events', ('expand_vector', ok)); outs.append((m2, 'ret', OK(Opaque('expanded')) if ok else ERR(Opaque('math err'))))
+                return outs
+            vm.add_model(r'^<M as Math>::expand_vector::<', expand)
+            m = Machine(); m.ghost['events'] = []; m.ghost['math'] = m.alloc(Opaque('math'))
+            old = Struct(('options of the previous draw',), 'Tok')
+            so = L.make('StatOptions', {'adapt': Opaque('adapt opts'), 'hamiltonian': old, 'point': Opaque('point opts'), 'divergence': Opaque('div opts')})
+            chain = {f: Opaque(f) for f in L.fields(ty)}; chain.update({'stats_options': so, 'math': Opaque('refcell')})
+            cc = m.alloc(L.make(ty, chain))
+            outs = vm.run(fn, [Ref(cc)], m); n += len(outs); rep.absorb_vm(vm)
+            seen_ok = 0
+            for (m2, k, v) in outs:
+                ev = m2.ghost['events']; names = [e[0] for e in ev]
+                if k != 'ret': bad.append(('%s::expanded_draw panics' % ty, str(v)[:100])); continue
+                after = L.get('StatOptions', L.get(ty, m2.mem[cc], 'stats_options'), 'hamiltonian')
+                if ('draw', False) in ev:
+                    if v.name != 'Err' or 'extract_stats' in names: bad.append(('%s::expanded_draw goes on after a failed draw' % ty,))
+                    continue
+                if names[:3] != ['draw', 'extract_stats', 'update_stats_options']: bad.append(('%s::expanded_draw: statistics are not extracted after the draw and before the options update, or the update is skipped on some draws (events %s, path condition %s)' % (ty, names, [str(c) for c in m2.pc][-2:]),)); continue
+                if ev[1][1] is not old: bad.append(('%s::expanded_draw extracts statistics with other options than those stored by the previous draw' % ty,))
+                if ev[2][1] is not old: bad.append(('%s::expanded_draw computes the next options from something else than the stored ones' % ty,))
+                if not (isinstance(after, Struct) and after.f == ('new hamiltonian options',)): bad.append(('%s::expanded_draw does not store the updated hamiltonian options (the next draw would report the same transformation update again / miss one)' % ty,))
+                if v.name == 'Ok': seen_ok += 1
+            rep.cover('C16.G %s::expanded_draw Ok path reachable' % ty, seen_ok > 0)
+    rep.paths += n
+    if bad: rep.violated('C16.G transformation-update tracking across draws', 'update_tracking', 'update-event bookkeeping: %s' % (bad[0],), model={'problems': [str(b)[:300] for b in bad[:6]]})
+    else: rep.holds('C16.G update events are tracked per draw: next_stats_options = current id (Diag, LowRank), TransformedHamiltonian::update_stats_options forwards it, NutsChain / MclmcChain::expanded_draw extract with the previous options and store the new ones on every successful draw (%d paths)' % n)
